@@ -155,7 +155,11 @@ impl Numeric {
     }
 
     pub fn pow(&self, exp: i32) -> Numeric {
-        if exp < 0 {
+        if exp == i32::MIN {
+            // -exp does not fit in an i32
+            let half = self.pow(exp / 2);
+            &half * &half
+        } else if exp < 0 {
             &Numeric::one() / &self.pow(-exp)
         } else {
             match *self {
